@@ -81,7 +81,7 @@ func (ex *Exec) sortSlice(st *State, in ssa.Instruction, c *ssa.CallCommon) (Val
 	inv := ex.ctx.Fresh("sortinv", arrSort(SInt, SInt))
 	st.assume(Term{fmt.Sprintf("(forall ((k!sl Int)) %s)", tImp(inK, tAnd(tLe(intLit(0), tSelect(inv, k, SInt)), tLt(tSelect(inv, k, SInt), s.Len),
 		tEq(tSelect(pi, tSelect(inv, k, SInt), SInt), k), tEq(tSelect(inv, tSelect(pi, k, SInt), SInt), k))).S), SBool})
-	st.ghost["Slice_pi"] = Sc{pi}
-	st.ghost["Slice_inv"] = Sc{inv}
+	st.setGhost("Slice_pi", Sc{pi})
+	st.setGhost("Slice_inv", Sc{inv})
 	return Tu{}, true
 }
